@@ -1,5 +1,5 @@
 import DoitModel.Proofs.C05Mon
-import DoitModel.Proofs.C05Unmet
+import DoitModel.Proofs.C05Just
 import DoitModel.Proofs.RunAcct
 /-! # C05 — failures are contained and never recorded as success
 
